@@ -5,6 +5,7 @@ import (
 	"os"
 	"runtime"
 	"sort"
+	"strconv"
 	"testing"
 	"time"
 
@@ -31,6 +32,7 @@ func runPlan(t *testing.T, pl any) *simcore.Result {
 	p := pl.(*Plan)
 	t0 := time.Now()
 	prologue()
+	runtime.GC() // the only collection point: never inside a scheduled world
 	res := simcore.NewResult()
 	var (
 		rn    *runner
@@ -50,11 +52,12 @@ func runPlan(t *testing.T, pl any) *simcore.Result {
 		if useSched {
 			sched = simsched.New(p.Tape, simsched.ModePoll)
 			sched.MaxSteps = 60000
+			sched.KeepLog = os.Getenv("PDB_SCHEDLOG") != ""
 			if os.Getenv("PDB_DUMP") != "" {
 				n := 0
 				sched.OnStep = func() error {
 					n++
-					if n == 20 {
+					if want, _ := strconv.Atoi(os.Getenv("PDB_DUMP")); n == want {
 						buf := make([]byte, 1<<20)
 						fmt.Printf("DUMP\n%s\n", buf[:runtime.Stack(buf, true)])
 					}
@@ -106,6 +109,9 @@ func runPlan(t *testing.T, pl any) *simcore.Result {
 				}
 			} else {
 				for _, op := range ph.Ops {
+					if rn.failed() {
+						break
+					}
 					if v := rn.doOp(op); v != nil {
 						rn.fail(v)
 						break
@@ -118,6 +124,9 @@ func runPlan(t *testing.T, pl any) *simcore.Result {
 			// quiescent end of phase: everything must be consistent
 			if v := rn.quiescentChecks(); v != nil {
 				rn.fail(v)
+				break
+			}
+			if rn.failed() {
 				break
 			}
 			if v := rn.endPhase(ph.End); v != nil {
@@ -180,6 +189,19 @@ func runPlan(t *testing.T, pl any) *simcore.Result {
 		choices = sched.Choices()
 	}
 	res.NonTrivial = res.Probes["flatten"]+res.Probes["commit"] > 0 && (sched == nil || choices >= 2)
+	switch p.Check {
+	case "C17":
+		res.NonTrivial = res.Probes["recover-done"] > 0
+	case "C22":
+		res.NonTrivial = res.Probes["iterator-nonempty"] > 0 && res.Probes["flatten"]+res.Probes["commit"] > 0
+	case "C18":
+		res.NonTrivial = res.Probes["historic-read-ok"] > 0
+	}
+	if sched != nil && sched.KeepLog {
+		for i, l := range sched.Trace {
+			fmt.Printf("SCHED %d %s\n", i, l)
+		}
+	}
 	if os.Getenv("PDB_TIMING") != "" {
 		steps := 0
 		if sched != nil {
